@@ -944,7 +944,9 @@ AUTHORS = [
     {'eo': 2, 'a': {'lo': [6, '6'], 'hi': [0, '0'], 'tree': ['*', ['vec', [N, C(1)]], V('y')], 'var': 'm'}},
 ]
 ERR_VARS = {'x': [1.37, 2.21], 'y': [1.5, 2.75]}
-NONINT = ['1.5', '7/2', 'pi', '-0.5', 'sqrt(2)', 'x', 'e', '2.0000001', '1/3', 'y-0.25']
+NONINT = ['1.5', '7/2', 'pi', '-0.5', 'sqrt(2)', 'x', 'e', '2.0000001', '1/3', 'y-0.25',
+          # within rounding of an integer, but not one: 2.9999999999999996, 5.999999999999999, 7.000000000000001
+          'sqrt(3)^2', 'sqrt(6)^2', 'sqrt(7)^2', '3-1e-12']
 COMPLEX = ['i', '1+i', '2*i', 'sqrt(-4)', 'j', 'x*i', '(1+i)^2', '3-2*j']
 VAR_CONSTANT = ['i', 'j', 'e', 'pi', 'infty']
 VAR_DECLARED = ['x', 'y']
@@ -1151,3 +1153,59 @@ PARTS = [
     Part('sums', 'hyp', judge_value, strategy=strat_sums, budget={'quick': 4000, 'thorough': 150000}),
     Part('infinite', 'hyp', judge_value, strategy=strat_infinite, budget={'quick': 600, 'thorough': 15000}),
 ]
+
+
+# ----------------------------------------------------------------------------------------------------------------
+# sums whose terms call a RANDOMLY SAMPLED function (redrawn at every sample) and use no sampled variable: author and
+# student must be evaluated with the same draw at every sample (a seeded change reused the author's value of the first
+# sample whenever "nothing variable" was sampled)
+
+RF_AUTHORS = [
+    {'lower': '1', 'upper': '4', 'summand': 'f(n)', 'summation_variable': 'n'},
+    {'lower': '0', 'upper': '3', 'summand': 'f(n)*n+h(n,1)', 'summation_variable': 'n'},
+    {'lower': '-2', 'upper': '2', 'summand': 'f(n/2)', 'summation_variable': 'n'},
+]
+RF_STUDENTS = [
+    ('same', lambda a: [a['lower'], a['upper'], a['summand'], a['summation_variable']], True),
+    ('renamed', lambda a: [a['lower'], a['upper'], a['summand'].replace('n', 'k'), 'k'], True),
+    ('swapped-limits', lambda a: [a['upper'], a['lower'], a['summand'], a['summation_variable']], True),
+    ('plus-zero', lambda a: [a['lower'], a['upper'], '(%s)+0' % a['summand'], a['summation_variable']], True),
+    ('offset', lambda a: [a['lower'], a['upper'], '(%s)+3' % a['summand'], a['summation_variable']], False),
+]
+
+
+def items_randfunc(tier):
+    for ai in range(len(RF_AUTHORS)):
+        for si in range(len(RF_STUDENTS)):
+            for samples in (2, 3, 5):
+                for seed in (0, 1, 2):
+                    yield {'author': ai, 'student': si, 'samples': samples, 'seed': seed}
+
+
+def judge_randfunc(spec, rec):
+    from mitxgraders import RandomFunction
+    a = RF_AUTHORS[spec['author']]
+    label, mk, good = RF_STUDENTS[spec['student']]
+    inp = mk(a)
+    g = SumGrader(answers=dict(a), samples=spec['samples'], tolerance=1e-9,
+                  user_functions={'f': RandomFunction(), 'h': RandomFunction(input_dim=2)})
+    set_seed(spec['seed'])
+    status, val = call(g, None, inp)
+    rec.calls()
+    rec.cls('random-function/' + label)
+    rec.nontrivial()
+    if status != 'ok':
+        if isinstance(val, MITxError):
+            raise Violation('random-function/raised', 'sum over a random function: %r raised %s: %s' % (
+                inp, type(val).__name__, str(val)[:150]))
+        raise val
+    ok = val.get('ok') is True
+    if ok != good:
+        # 'offset' misses by 3 per term at every sample (|terms| <= 10, tolerance 1e-9): never correct
+        raise Violation('random-function/' + ('equal-sum-rejected' if good else 'unequal-sum-accepted'),
+                        'author %r, student %r (%s), %d samples: graded %r' % (a, inp, label, spec['samples'], val))
+    return {'student': inp, 'result': val}
+
+
+PARTS.append(Part('randfunc', 'enum', judge_randfunc, items=items_randfunc, exhaustive=True))
+REQUIRED['random-function/same'] = 20
